@@ -82,7 +82,7 @@ deriving Repr, Inhabited
 def fail (msg : String) (s : St) : St :=
   { s with fault := match s.fault with | some m => some m | none => some msg }
 
-/-- state after `acmod_create` + `acmod_alloc_buffers` (acmod.c:186-203, 214) with arbitrary buffer contents -/
+/-- state after `acmod_create` + `acmod_alloc_buffers` (acmod.c:185-203, 214) -/
 def St.init (cmn0 : Nat) : St :=
   { state := .idle, nextId := 0, mfcBuf := List.replicate nMfc none, nMfcAlloc := nMfc, nMfcFrame := 0,
     mfcOutidx := 0, cepbuf := List.replicate livebuf none, bufpos := 0, curpos := 0,
@@ -129,7 +129,7 @@ def repLast : Nat → Nat → St → St
     if tpos < s.cepbuf.length then repLast n tpos (pushCep s (s.cepbuf.getD tpos none))
     else fail "cepbuf read out of range" s
 
-/-- the window handed to `compute_feat` (feat.c:1098-1108): pointer array through `tmpcepbuf` in the
+/-- the window handed to `compute_feat` (feat.c:1097-1108): pointer array through `tmpcepbuf` in the
     wrap-around case, `cepbuf + curpos` directly otherwise -/
 def readWindow (win : Nat) (s : St) : Feat :=
   if s.curpos < win ∨ s.curpos + win ≥ livebuf then
@@ -181,7 +181,7 @@ structure LiveRes where
   /-- return value -/
   nfeat : Nat
 
-/-- number of frames already in the ring plus the ones that will be replicated (feat.c:1029-1040);
+/-- number of frames already in the ring plus the ones that will be replicated (feat.c:1028-1040);
     on start of utterance the input buffer is emptied first (`bufpos = curpos`) -/
 def liveNbuf (win : Nat) (s : St) (ncep : Nat) (beginutt endutt : Bool) : Nat :=
   let bufpos := if beginutt then s.curpos else s.bufpos
@@ -189,8 +189,8 @@ def liveNbuf (win : Nat) (s : St) (ncep : Nat) (beginutt endutt : Bool) : Nat :=
   nbuf0 + (if beginutt && decide (ncep > 0) then win else 0) + (if endutt then win else 0)
 
 /-- everything `feat_s2mfc2feat_live` writes before the feature loop, in the order of the C code:
-    reset of the input pointer (l.1029-1030), `feat_cmn` on the consumed frames (l.1052), replication of
-    the first frame (l.1057-1066), copy into the ring (l.1069-1074), replication of the last frame (l.1079-1090) -/
+    reset of the input pointer (l.1028-1030), `feat_cmn` on the consumed frames (l.1052), replication of
+    the first frame (l.1054-1066), copy into the ring (l.1068-1074), replication of the last frame (l.1076-1090) -/
 def liveIn (win : Nat) (skip : Nat → Bool) (s : St) (ptr ncep : Nat) (beginutt endutt : Bool) : St :=
   let s := if beginutt then { s with bufpos := s.curpos } else s
   let s := cmnLive skip s ptr ncep
@@ -205,51 +205,60 @@ def liveIn (win : Nat) (skip : Nat → Bool) (s : St) (ptr ncep : Nat) (beginutt
 /-- feat.c:1009-1121.  `ptr`, `ncep`: the input frames are `mfc_buf[ptr .. ptr+ncep)`; `outpos`: index in
     `feat_buf` of `ofeat[0]`. -/
 def featLive (win : Nat) (skip : Nat → Bool) (s : St) (ptr ncep : Nat) (beginutt endutt : Bool) (outpos : Nat) : LiveRes :=
-  -- special case for entire utterances (l.1022): batch regime, never taken by the streaming calls
+  -- special case for entire utterances (l.1021-1023): batch regime, never taken by the streaming calls
   if beginutt && endutt && decide (ncep > 0) then ⟨fail "block-utterance path taken in streaming mode" s, ncep, 0⟩ else
   let nbuf1 := liveNbuf win s ncep beginutt endutt
-  -- only consume as much input as fits (l.1043-1049)
+  -- only consume as much input as fits (l.1042-1049)
   if nbuf1 + ncep > livebuf then ⟨fail "live buffer clamp" s, 0, 0⟩ else
   let s := liveIn win skip s ptr ncep beginutt endutt
   -- `nbufcep -= win` after the start replication (l.1065), `++nbufcep` per copied frame (l.1073)
   let nbuf3 := (if beginutt && decide (ncep > 0) then nbuf1 - win else nbuf1) + ncep
-  -- leave the trailing window (l.1093-1095), then the feature loop (l.1096-1112)
+  -- leave the trailing window (l.1092-1095), then the feature loop (l.1096-1112)
   if nbuf3 ≤ win then ⟨s, ncep, 0⟩ else ⟨computeFeats win (nbuf3 - win) outpos s, ncep, nbuf3 - win⟩
 
-/-! ## `acmod_process_cep` (non-full branch, acmod.c:635-728) -/
+/-! ## `acmod_process_cep` (non-full branch, acmod.c:641-728) -/
 
 structure CepRes where
   st : St
   /-- return value: number of input frames consumed -/
   used : Nat
 
-def processCep (fixD8 : Bool) (win : Nat) (skip : Nat → Bool) (s : St) (ptr n : Nat) : CepRes :=
-  -- maximum number of frames we are going to generate (l.647-654)
-  let nfeat : Int := match s.state with
-    | .ended => (n : Int) + win
-    | .started => (n : Int) - win
-    | _ => n
-  -- clamp / grow (l.656-665)
-  let avail : Int := (s.nFeatAlloc : Int) - s.nFeatFrame
-  if nfeat > avail ∧ ¬(s.growFeat || s.state == .ended) then ⟨fail "fixed-size feature ring (grow_feat = FALSE)" s, 0⟩ else
-  let s := if nfeat > avail then growFeatBuf s ((s.nFeatAlloc : Int) + nfeat).toNat else s
-  -- where to start writing (l.667-675)
-  if !s.growFeat then ⟨fail "fixed-size feature ring (grow_feat = FALSE)" s, 0⟩ else
-  let inptr := s.featOutidx + s.nFeatFrame
-  let s := growLoop (((inptr : Int) + nfeat).toNat + 1) s ((inptr : Int) + nfeat)
-  -- l.677-682: cannot split the last frame drop
-  if (inptr : Int) + nfeat > s.nFeatAlloc ∧ s.state = .ended then ⟨fail "end of utterance at the ring boundary" s, 0⟩ else
-  -- l.684-706: write in two parts if there is wraparound
-  if (inptr : Int) + nfeat > s.nFeatAlloc then ⟨fail "feature ring wrap-around" s, 0⟩ else
-  -- l.708-715
-  let r := featLive win skip s ptr n (s.state == .started) (s.state == .ended) inptr
+/-- maximum number of feature frames the call may generate (acmod.c:655-661) -/
+def cepNfeat (win : Nat) (s : St) (n : Nat) : Int :=
+  match s.state with
+  | .ended => (n : Int) + win
+  | .started => (n : Int) - win
+  | _ => n
+
+/-- the two growth steps when `grow_feat` is set (acmod.c:663-668 and 674-678): make room for `nfeat`
+    more frames, then double until the write position cannot reach the end of the buffer -/
+def cepGrow (s : St) (nfeat : Int) : St :=
+  let s1 := if nfeat > (s.nFeatAlloc : Int) - s.nFeatFrame then growFeatBuf s ((s.nFeatAlloc : Int) + nfeat).toNat else s
+  let need : Int := ((s1.featOutidx + s1.nFeatFrame : Nat) : Int) + nfeat
+  growLoop (need.toNat + 1) s1 need
+
+/-- bookkeeping after the feature computation (acmod.c:718-727) -/
+def cepFinish (fixD8 : Bool) (r : LiveRes) : CepRes :=
   let s : St := { r.st with nFeatFrame := r.st.nFeatFrame + r.nfeat }
   let s := if s.nFeatFrame ≤ s.nFeatAlloc then s else fail "assert(n_feat_frame <= n_feat_alloc)" s
-  -- l.719-721; with the D8 repair the state stays STARTED until a frame has been consumed
+  -- l.725-726; with the D8 repair the state stays STARTED until a frame has been consumed
   let s := if s.state = .started ∧ (!fixD8 || decide (r.used > 0)) then { s with state := .processing } else s
   ⟨s, r.used⟩
 
-/-! ## `acmod_process_mfcbuf` (acmod.c:495-528) -/
+def processCep (fixD8 : Bool) (win : Nat) (skip : Nat → Bool) (s : St) (ptr n : Nat) : CepRes :=
+  let nfeat := cepNfeat win s n
+  -- clamp instead of growing (l.669-670), circular write position (l.679-680): only with `grow_feat = FALSE`
+  if !s.growFeat then ⟨fail "fixed-size feature ring (grow_feat = FALSE)" s, 0⟩ else
+  let inptr := s.featOutidx + s.nFeatFrame
+  let s := cepGrow s nfeat
+  -- l.683-688: cannot split the last frame drop
+  if (inptr : Int) + nfeat > s.nFeatAlloc ∧ s.state = .ended then ⟨fail "end of utterance at the ring boundary" s, 0⟩ else
+  -- l.690-711: write in two parts if there is wraparound
+  if (inptr : Int) + nfeat > s.nFeatAlloc then ⟨fail "feature ring wrap-around" s, 0⟩ else
+  -- l.713-717
+  cepFinish fixD8 (featLive win skip s ptr n (s.state == .started) (s.state == .ended) inptr)
+
+/-! ## `acmod_process_mfcbuf` (acmod.c:492-526) -/
 
 def afterCep (s : St) (used : Nat) : St :=
   if used ≤ s.nMfcFrame then
@@ -290,7 +299,7 @@ structure RawRes where
   rest : List FeResp
   more : Bool
 
-/-- the `while (inptr + ncep > n_mfc_alloc)` loop of `acmod_process_raw` (acmod.c:547-566); returns the
+/-- the `while (inptr + ncep > n_mfc_alloc)` loop of `acmod_process_raw` (acmod.c:551-570); returns the
     state, the remaining responses, whether samples remain, `inptr`, `ncep`, and whether `goto alldone` was taken -/
 def rawLoop : Nat → St → Nat → Nat → List FeResp → Bool → St × List FeResp × Bool × Nat × Nat × Bool
   | 0, s, inptr, ncep, rs, more => (fail "acmod_process_raw loop does not terminate" s, rs, more, inptr, ncep, true)
@@ -305,7 +314,7 @@ def rawLoop : Nat → St → Nat → Nat → List FeResp → Bool → St × List
       else rawLoop fuel s ((inptr + nvec) % s.nMfcAlloc) (ncep - nvec) rs r.more
     else (s, rs, more, inptr, ncep, false)
 
-/-- `acmod_process_raw` / `acmod_process_float32` with `*inout_n_samps > 0`, `full_utt = 0` (acmod.c:530-578) -/
+/-- `acmod_process_raw` / `acmod_process_float32` with `*inout_n_samps > 0`, `full_utt = 0` (acmod.c:528-583, 585-643) -/
 def processRaw (fixD8 : Bool) (win : Nat) (skip : Nat → Bool) (s : St) (rs : List FeResp) : RawRes :=
   let ncep := s.nMfcAlloc - s.nMfcFrame
   let inptr := (s.mfcOutidx + s.nMfcFrame) % s.nMfcAlloc
@@ -320,7 +329,7 @@ def processRaw (fixD8 : Bool) (win : Nat) (skip : Nat → Bool) (s : St) (rs : L
 
 /-! ## search side: `calc_feat_idx`, `acmod_score`, `acmod_advance`, `acmod_rewind` -/
 
-/-- `calc_frame_idx` + `calc_feat_idx` (acmod.c:753-790) for a non-negative requested frame -/
+/-- `calc_frame_idx` + `calc_feat_idx` (acmod.c:764-802) for a non-negative requested frame -/
 def featIdx (s : St) (frameIdx : Nat) : Option Nat :=
   let nBack : Int := (s.nFeatAlloc : Int) - s.nFeatFrame
   if (s.outputFrame : Int) - frameIdx > nBack then none
@@ -339,7 +348,7 @@ def advance (s : St) : St :=
   { s with featOutidx := if s.featOutidx + 1 = s.nFeatAlloc then 0 else s.featOutidx + 1,
            nFeatFrame := s.nFeatFrame - 1, outputFrame := s.outputFrame + 1 }
 
-/-- `search_module_forward` (decoder.c:935-957): `n` iterations of step + advance -/
+/-- `search_module_forward` (decoder.c:940-962): `n` iterations of step + advance -/
 def searchN : Nat → St → St
   | 0, s => s
   | n + 1, s =>
@@ -371,12 +380,14 @@ def alignPass (s : St) (upto : Nat) : St :=
 
 /-! ## decoder level -/
 
-/-- `acmod_start_utt` (acmod.c:355-369) -/
+/-- `acmod_start_utt` (acmod.c:355-369).  `cmnMoved` is a ghost flag relative to the utterance ("the mean is
+    no longer the one in force when the utterance started"), so it is cleared here; the observation logs
+    `searched` / `aligned` are per utterance as well. -/
 def startUtt (s : St) : St :=
   { s with state := .started, nextId := 0, nMfcFrame := 0, nFeatFrame := 0, mfcOutidx := 0, featOutidx := 0,
-           outputFrame := 0, searched := [], aligned := [] }
+           outputFrame := 0, cmnMoved := false, searched := [], aligned := [] }
 
-/-- the `while (n_samples)` loop of `decoder_process_int16/float32` (decoder.c:976-992) -/
+/-- the `while (n_samples)` loop of `decoder_process_int16/float32` (decoder.c:976-992, 1013-1029) -/
 def decLoop (fixD8 : Bool) (win : Nat) (skip : Nat → Bool) (noSearch : Bool) : Nat → St → List FeResp → St
   | 0, s, _ => fail "decoder_process loop does not terminate" s
   | fuel + 1, s, rs =>
@@ -384,32 +395,39 @@ def decLoop (fixD8 : Bool) (win : Nat) (skip : Nat → Bool) (noSearch : Bool) :
     let s := if noSearch then r.st else searchForward r.st
     if r.more then decLoop fixD8 win skip noSearch fuel s r.rest else s
 
-/-- `decoder_process_int16/float32` with `n_samples > 0`, `full_utt = 0` (decoder.c:959-1031) -/
+/-- `decoder_process_int16/float32`, `full_utt = 0` (decoder.c:964-1036); `rs = []` stands for `n_samples = 0` -/
 def decProcess (fixD8 : Bool) (win : Nat) (skip : Nat → Bool) (s : St) (noSearch : Bool) (rs : List FeResp) : St :=
   if s.state = .idle then s else
   let s := if noSearch then setGrow s true else s
   if rs.isEmpty then s else
   decLoop fixD8 win skip noSearch (rs.length + 1) s rs
 
-/-- `acmod_end_utt` (acmod.c:371-402); `tail`: whether `fe_end` yields the pending partial frame -/
-def acmodEndUtt (fixD8 : Bool) (win : Nat) (skip : Nat → Bool) (s : St) (tail : Bool) : St :=
-  let wasStarted := decide (s.state = .started)
-  let s := { s with state := .ended }
+/-- the `fe_end` part of `acmod_end_utt`: the pending partial frame, if the front end has one (`tail`), is
+    written behind the frames of the ring; returns the state and `ntail` -/
+def endFe (s : St) (tail : Bool) : St × Nat :=
   if s.nMfcFrame < s.nMfcAlloc then
     let inptr := (s.mfcOutidx + s.nMfcFrame) % s.nMfcAlloc
     let nfr := s.nMfcAlloc - inptr
     let ntail := min (if tail then 1 else 0) nfr
-    let s := feWrite ntail inptr s
-    let s := { s with nMfcFrame := s.nMfcFrame + ntail }
-    if ntail > 0 then
-      let s := if fixD8 && wasStarted then
-          { (processMfcbuf fixD8 win skip { s with state := .started }).st with state := .ended }
-        else s
-      (processMfcbuf fixD8 win skip s).st
-    else s
-  else s
+    let s1 := feWrite ntail inptr s
+    ({ s1 with nMfcFrame := s1.nMfcFrame + ntail }, ntail)
+  else (s, 0)
 
-/-- `decoder_end_utt` (decoder.c:1033-1089) -/
+/-- D8 repair in `acmod_end_utt`: when no frame has been consumed so far, the frames are first consumed as
+    the start of the utterance (start padding) -/
+def endHead (fixD8 : Bool) (win : Nat) (skip : Nat → Bool) (s : St) : St :=
+  { (processMfcbuf fixD8 win skip { s with state := .started }).st with state := .ended }
+
+/-- `acmod_end_utt` (acmod.c:371-402, with the D8 repair); `tail`: whether `fe_end` yields the pending partial frame -/
+def acmodEndUtt (fixD8 : Bool) (win : Nat) (skip : Nat → Bool) (s : St) (tail : Bool) : St :=
+  let wasStarted := decide (s.state = .started)
+  let r := endFe { s with state := .ended } tail
+  if r.2 > 0 then
+    let s1 := if fixD8 && wasStarted then endHead fixD8 win skip r.1 else r.1
+    (processMfcbuf fixD8 win skip s1).st
+  else r.1
+
+/-- `decoder_end_utt` (decoder.c:1038-1093) -/
 def decEnd (fixD8 : Bool) (win : Nat) (skip : Nat → Bool) (s : St) (tail : Bool) : St :=
   if s.state = .ended ∨ s.state = .idle then s else
   searchForward (acmodEndUtt fixD8 win skip s tail)
@@ -425,6 +443,10 @@ inductive Op
       runs and scores the frames below `upto` -/
   | align (steps : Option Nat)
 deriving Repr, Inhabited
+
+def Op.isProcess : Op → Bool
+  | .process _ _ => true
+  | _ => false
 
 def step (fixD8 : Bool) (win : Nat) (skip : Nat → Bool) (s : St) : Op → St
   | .process ns rs =>
